@@ -71,7 +71,35 @@ def shared_parse_same(text, outcome, term):
 _NOISE = [0]
 
 
+def depth_of(t):
+    d, stack = 0, [(t, 1)]
+    while stack:
+        n, k = stack.pop()
+        d = max(d, k)
+        for c in ("l", "r", "c"):
+            if isinstance(n.get(c), dict):
+                stack.append((n[c], k + 1))
+    return d
+
+
+LIFTED = "\u2295 "      # marker: the text is parsed in a process that has lifted CPython's digit limit (sys.set_int_max_str_digits(0))
+
+
 def make_event(text):
+    if text.startswith(LIFTED):
+        import sys
+        old = sys.get_int_max_str_digits()
+        sys.set_int_max_str_digits(0)
+        try:
+            ev = _make_event(text[len(LIFTED):])
+        finally:
+            sys.set_int_max_str_digits(old)
+        ev["lifted"] = True
+        return ev
+    return _make_event(text)
+
+
+def _make_event(text):
     from mathy_core.parser import ExpressionParser
     if common.pick(text, 200) == 0:
         common.process_noise(common.pick(text, 997))
@@ -117,6 +145,7 @@ def make_event(text):
     try:
         ev["term"] = project.term(tree)
         ev["shared_same"] = shared_parse_same(text, ev["outcome"] if "outcome" in ev else "ok", ev["term"])
+        ev["deep"] = depth_of(ev["term"]) > 120
         if "tree" in ev["rep"]:
             ev["rep"]["same"] = project.term(ev["rep"].pop("tree")) == ev["term"]
         objs = project.ObjTable()
@@ -178,7 +207,7 @@ CURATED = [
 # literals around CPython's 4300-digit limit for int <-> text conversion
 LONG_LITERALS = ["9" * 4301 + "x + 1", "2 * " + "7" * 4400, "4x^" + "1" * 4305, "x + " + "12" * 600, "8" * 1000 + " - 1"]
 # exactly at the limit (read correctly by the pinned code); the reference grammar needs ~90 s per such text, so thorough tier only
-LONG_LITERALS_AT_LIMIT = ["1" + "0" * 4299, "x + " + "12" * 2150]
+LONG_LITERALS_AT_LIMIT = ["1" + "0" * 4299, "x + " + "12" * 2150, LIFTED + "9" * 4301 + "x + 1", LIFTED + "2 * " + "7" * 4400]
 
 
 def chains(ctx):
@@ -245,7 +274,9 @@ def domain(ctx, res):
             if any(t in m for t in s):
                 texts.append(render(substitute(s, m), 1))
     n2 = len(texts)
+    from . import rewrite
     texts += CURATED + LONG_LITERALS + ([] if ctx.quick else LONG_LITERALS_AT_LIMIT) + chains(ctx) + soups(ctx, sentences)
+    texts += [t for t in rewrite.big_count_prints() if isinstance(t, str)]          # 60..170 function calls / 30..85 parenthesised products in one text
     seen = set()
     uniq = []
     for t in texts:
@@ -294,7 +325,10 @@ def run_family(ctx, cases, prop, clauses_of_interest):
     sys.setrecursionlimit(10000)
     with Pool(16) as pool:
         events = pool.map(make_event, texts, chunksize=500)
-    fails, st = tlc.validate_sharded("TraceParse", "TraceParse.cfg", events, ctx.work, shard_size=max(1500, len(events) // 32 + 1), timeout=1800)
+    for e in events:
+        e.setdefault("deep", False)
+    send = [dict(e, term={"k": "deep"}) if e["deep"] else e for e in events]
+    fails, st = tlc.validate_sharded("TraceParse", "TraceParse.cfg", send, ctx.work, shard_size=max(1500, len(events) // 32 + 1), timeout=1800)
     res.states += st["distinct"]; res.transitions += st["generated"]
     res.traces = len(events)
     res.evaluations = len(events)
@@ -317,7 +351,7 @@ def run_family(ctx, cases, prop, clauses_of_interest):
     for eid, cl in sorted(bad.items()):
         text = texts[eid - 1]
         sig = "%s|%s|%s" % (prop, ",".join(cl), minimal_window(text, patterns))
-        if re.search(r"(?<![\d.])\d{4301,}(?![\d.])", text):
+        if re.search(r"(?<![\d.])\d{4301,}(?![\d.])", text) and not text.startswith(LIFTED):
             # (CPython's limit for int <-> text conversion: one root cause whatever surrounds the literal)
             sig = "%s|%s|integer literal longer than 4300 digits" % (prop, ",".join(cl))
         shown = text if len(text) <= 200 else "%s...(%d characters)...%s" % (text[:60], len(text), text[-40:])
